@@ -406,3 +406,13 @@ pub(crate) fn block_caps(b: &Block) -> (usize, usize) {
 pub(crate) fn cursor_caps(c: &BlockCursor<Block>) -> (usize, usize) {
     block_caps(&c.block)
 }
+
+/// Replacement of Block::read_from (in-place reload of an existing block): same model as ac_block_new.
+pub(crate) fn ac_block_read_from<R: io::Read>(this: &mut Block, mut reader: R) -> Result<(), Error> {
+    let mut buf = [0u8; 8];
+    let _n = reader.read(&mut buf)?;
+    let id = u64::from_be_bytes(buf) as usize;
+    assert!(id < nblocks(), "the glue loaded a block from an offset where no block starts");
+    this.payload_size = id;
+    Ok(())
+}
